@@ -8,8 +8,9 @@ C02 / C03 (coq/Model/Sessions.v) is parameterised by.
   tracebacks_released        Parser.parse's finally clause calls release_tracebacks(), which clears the traceback and
                              context of every error constant
   debug_only_prints          every use of self.debug in hotxlfp.Parser guards only traceback.print_exc()
-  no_module_level_state      no `global` statement, no cache decorator, no mutable default argument that is written,
-                             anywhere in the package (outside the generated ply tables)
+  no_module_level_state      no `global` statement, no cache decorator, no mutable default argument that is written, no
+                             module-level or class-level container mutated from a function, anywhere in the package
+                             (outside the generated ply tables)
   registry_closed            register_for is only used as a top-level decorator (the registry is filled at import)
   no_parameter_mutation      no function of the package mutates one of its parameters (or a plain alias of one) in place:
                              no .sort/.append/.extend/... call, no item / slice assignment or deletion, no augmented
@@ -122,6 +123,31 @@ def generate(root):
                     for tg in n.targets:
                         if isinstance(tg, ast.Name):
                             containers.add(tg.id)
+            # class-level mutable containers (one object shared by every instance) written through an attribute
+            shared_attrs = set()
+            for c in ast.walk(t):
+                if isinstance(c, ast.ClassDef):
+                    for n in c.body:
+                        if isinstance(n, ast.Assign) and (isinstance(n.value, (ast.Dict, ast.List, ast.Set, ast.ListComp, ast.DictComp, ast.SetComp)) or
+                                                          (isinstance(n.value, ast.Call) and isinstance(n.value.func, ast.Name) and
+                                                           n.value.func.id in ('dict', 'list', 'set', 'defaultdict', 'OrderedDict', 'Counter', 'deque'))):
+                            for tg in n.targets:
+                                if isinstance(tg, ast.Name):
+                                    shared_attrs.add(tg.id)
+                    # an attribute that __init__ rebinds on self is per instance after all
+                    for m in c.body:
+                        if isinstance(m, ast.FunctionDef) and m.name == '__init__':
+                            for n in ast.walk(m):
+                                if isinstance(n, ast.Assign):
+                                    for tg in n.targets:
+                                        if isinstance(tg, ast.Attribute) and isinstance(tg.value, ast.Name) and tg.value.id == 'self':
+                                            shared_attrs.discard(tg.attr)
+            for n in ast.walk(t):
+                if isinstance(n, ast.Subscript) and isinstance(n.ctx, (ast.Store, ast.Del)) and isinstance(n.value, ast.Attribute) and n.value.attr in shared_attrs:
+                    bad.append('%s: class-level %s written' % (fn, n.value.attr))
+                if isinstance(n, ast.Call) and isinstance(n.func, ast.Attribute) and isinstance(n.func.value, ast.Attribute) and n.func.value.attr in shared_attrs and \
+                        n.func.attr in ('append', 'extend', 'insert', 'update', 'setdefault', 'add', 'pop', 'popitem', 'clear', 'remove', 'discard', 'sort', 'reverse', '__setitem__'):
+                    bad.append('%s: class-level %s mutated' % (fn, n.func.value.attr))
             for fn_node in ast.walk(t):
                 if not isinstance(fn_node, (ast.FunctionDef, ast.Lambda)):
                     continue
